@@ -266,7 +266,9 @@ Plan(db, e) ==
                           ugs == IF HasText(e, "updtext") THEN RegsFor(cl, e.t, "update", e.updtext) ELSE {}
                           res == IF ~cl.native.active THEN ApplyU(e.upd, base, e.names, e.values, KeyAttrs(tbl))
                                  ELSE IF ugs = {} THEN [ok |-> FALSE, item |-> base]       \* unsupported feature: no updater registered
-                                 ELSE LET g == CHOOSE x \in ugs : TRUE IN [ok |-> TRUE, item |-> [a \in {g.attr} |-> g.val] @@ base]
+                                 ELSE LET g == CHOOSE x \in ugs : TRUE       \* the registered updater: sets one attribute, may delete another
+                                          set == [a \in {g.attr} |-> g.val] @@ base
+                                      IN [ok |-> TRUE, item |-> IF g.rem = "" THEN set ELSE [a \in (DOMAIN set) \ {g.rem} |-> set[a]]]
                           good == res.ok /\ ItemValid(res.item) /\ IdxKeysTyped(tbl, res.item)
                       IN [ocs |-> (IF "T" \in O THEN (IF good THEN {"ok"} ELSE {"err"}) ELSE {})
                                   \cup (IF "F" \in O THEN (IF good THEN {"ccf"} ELSE {"ccf", "err"}) ELSE {})
@@ -313,7 +315,8 @@ Plan(db, e) ==
              keep == { x \in cl.native.regs : ~(x.t = g.t /\ x.kind = g.kind /\ x.text = g.text) }
          IN Ok([db EXCEPT ![e.c].native.regs = keep \cup {g}])
     [] e.op = "AddUpdater" ->
-         LET g == [t |-> e.t, kind |-> "update", text |-> NormWS(e.text), id |-> e.id, attr |-> e.attr, val |-> e.val]
+         LET g == [t |-> e.t, kind |-> "update", text |-> NormWS(e.text), id |-> e.id, attr |-> e.attr, val |-> e.val,
+                   rem |-> IF "rem" \in DOMAIN e THEN e.rem ELSE ""]
              keep == { x \in cl.native.regs : ~(x.t = g.t /\ x.kind = g.kind /\ x.text = g.text) }
          IN Ok([db EXCEPT ![e.c].native.regs = keep \cup {g}])
 
